@@ -836,6 +836,7 @@ Lemma reserved_free_parts : forall e, reserved_free e = true ->
        && bytes_eqb (response_name e) (bs "events")) = false
   /\ forallb (fun u => match uf_kind u with
                         | KInlineOneof opts => forallb (fun o => negb (bytes_eqb (to_snake (sf_name o)) (bs "type"))) opts
+                        | KInlineTree k fs => tree_type_free k fs
                         | _ => true end) (all_ufields e) = true.
 Proof.
   intros e H. unfold reserved_free in H.
